@@ -274,10 +274,26 @@ theorem pass2_depth_is_token_depth_fails : ¬ ∀ pre : Bytes, depthWith Fixes.n
   revert this
   decide
 
+/-- **The true part for the loop as it was** (the `_partial`): on a text without an *escaped backslash* (no token `\\`) the
+    previous-byte loop computes the token depth as well — every backslash byte then starts an escape token, so "the byte
+    before is a backslash" does mean "escaped".  Hence either loop, whatever the state of the repair. -/
+theorem pass2_depth_is_token_depth_partial (fx : Fixes) (pre : Bytes) (hno : ∀ t ∈ tokens pre, t ≠ .esc bBackslash) :
+    depthWith fx pre = balance (tokens pre) := by
+  by_cases h : fx.f190 = true
+  · exact depthWith_repaired fx h pre
+  · rw [depthWith_as_was fx (by simpa using h), depthOf_eq_balance pre hno]
+
+/-- non-vacuity: `\[a[\]\^b` (escaped `[`, a class left open that holds an escaped `]`, an escaped `^`) has no escaped backslash; the
+old loop arrives at the token depth 1 -/
+example : (∀ t ∈ tokens [92, 91, 97, 91, 92, 93, 92, 94, 98], t ≠ .esc bBackslash) ∧ depthWith Fixes.none [92, 91, 97, 91, 92, 93, 92, 94, 98] = 1 := by decide
+example : balance (tokens [92, 91, 97, 91, 92, 93, 92, 94, 98]) = 1 :=
+  (pass2_depth_is_token_depth_partial Fixes.none _ (by decide)).symm.trans (by decide)
+
 /-- **Full strength, repaired step** (fixes/F1.diff + F186.diff + F190.diff + F187.diff): `\p{IsX}` is replaced by the range
     text of the row named exactly X — the whole text, with its brackets, when the escape stands outside every character
-    class, the text without its first and last byte inside a class, *inside a class* meaning that the escape tokens before
-    it open more unescaped brackets than they close (the depth of pass 1) — and an X that is not a row name is rejected.
+    class, the text without its first and last byte inside a class, *inside a class* meaning that the unescaped brackets of
+    the escape tokens before it do not balance (the depth of pass 1, which lets through only texts where no prefix closes
+    more than it opened: more opened than closed) — and an X that is not a row name is rejected.
     (Any table, any `URANGE_LEN`.) -/
 theorem block_subst_correct (fx : Fixes) (h1 : fx.f1 = true) (h186 : fx.f186 = true) (h190 : fx.f190 = true)
     (h187 : fx.f187 = true) (tbl : List (Bytes × Bytes)) (ulen : Nat) (pre name post : Bytes)
@@ -400,8 +416,8 @@ theorem block_subst_tokdepth_fails :
   decide
 
 /-- **`block_subst_correct_partial` with the depth of the pattern**: the statement with the token depth of pass 1 holds
-of the step without the F190 repair wherever the old depth loop agrees with it (no `\\[`, `\\]` before the escape, for
-instance). -/
+of the step without the F190 repair wherever the old depth loop agrees with it — in particular when no escaped backslash
+stands before the escape (`pass2_depth_is_token_depth_partial`). -/
 theorem block_subst_correct_tokdepth (fx : Fixes) (h1 : fx.f1 = true) (h186 : fx.f186 = true) (h190 : fx.f190 = false)
     (tbl : List (Bytes × Bytes)) (ulen : Nat) (pre name post : Bytes)
     (hfirst : FirstAt pre name post) (hname : bRBrace ∉ name) (hdepth : depthOf pre = balance (tokens pre)) :
@@ -418,6 +434,13 @@ theorem block_subst_correct_tokdepth (fx : Fixes) (h1 : fx.f1 = true) (h186 : fx
 /-- non-vacuity (audit): the depth hypothesis holds at `[\]a` (an escaped `]` inside an open class: both depths are 1) -/
 example : depthOf [91, 92, 93, 97] = balance (tokens [91, 92, 93, 97]) ∧ balance (tokens [91, 92, 93, 97]) = 1 ∧
     FirstAt [91, 92, 93, 97] [71, 114, 101, 101, 107] [93] := ⟨by decide, by decide, by unfold FirstAt; decide⟩
+/-- … obtained from the syntactic condition, and the theorem applied: `[\]a\p{IsGreek}]` ↦ `[\]a\x{0370}-\x{03FF}]` by the code
+with F1, F25, F186 repaired only (`URANGE_LEN` 19) -/
+example : chblocksStep { f1 := true, f25 := true, f186 := true } ublocks 19 ([91, 92, 93, 97] ++ (needle ++ ([71, 114, 101, 101, 107] ++ bRBrace :: [93]))) =
+    .next [91, 92, 93, 97, 92, 120, 123, 48, 51, 55, 48, 125, 45, 92, 120, 123, 48, 51, 70, 70, 125, 93] :=
+  ((block_subst_correct_tokdepth { f1 := true, f25 := true, f186 := true } rfl rfl rfl ublocks 19 [91, 92, 93, 97] [71, 114, 101, 101, 107] [93]
+    (by unfold FirstAt; decide) (by decide)
+    ((pass2_depth_is_token_depth_partial { f1 := true, f25 := true, f186 := true } [91, 92, 93, 97] (by decide)))).1 7 (by decide)).2
 
 /-- the `Specials` row of `ublock2urange` as it was before fixes/F187.diff: `[\x{FEFF}|\x{FFF0}-\x{FFFD}]`, 28 bytes -/
 def specialsRowWas : Bytes × Bytes := ([83, 112, 101, 99, 105, 97, 108, 115], [91, 92, 120, 123, 70, 69, 70, 70, 125, 124, 92, 120, 123, 70, 70, 70, 48, 125, 45, 92, 120, 123, 70, 70, 70, 68, 125, 93])
